@@ -30,7 +30,12 @@ fn main() {
                 }
                 let sc: exec::Scenario = serde_json::from_str(&line).expect("scenario json");
                 let mut e = exec::Exec::new(&sc);
-                e.run(&sc.cmds);
+                // a panic of the harness itself (e.g. the code under test did something the driver
+                // cannot even represent) ends the scenario with an `anomaly` event instead of the batch
+                let r = std::panic::catch_unwind(std::panic::AssertUnwindSafe(|| e.run(&sc.cmds)));
+                if r.is_err() {
+                    e.events.push(serde_json::json!({"ev": "anomaly", "msg": exec::last_panic()}));
+                }
                 let mut h = e.header_event();
                 h["name"] = serde_json::json!(sc.name);
                 writeln!(out, "{}", h).unwrap();
